@@ -34,13 +34,17 @@ STALL = """({
 # what every look-ahead does to the termination measure
 MU_PEEK = """0 <= mu(*final(self)) <= mu(*old(self)), at_eof(*final(self)) == at_eof(*old(self)), stay(*old(self), *final(self)),
             (old(self).fuel > 0 && !at_eof(*old(self))) ==> mu(*final(self)) < mu(*old(self)),"""
-MU_SAME = "0 <= mu(*final(self)) == mu(*old(self)), at_eof(*final(self)) == at_eof(*old(self)), stay(*old(self), *final(self)),"
-MU_SAME_P = "0 <= mu(*final(p)) == mu(*old(p)), at_eof(*final(p)) == at_eof(*old(p)), stay(*old(p), *final(p)),"
+FUEL_SAME = "ntpos(*final(self)) == ntpos(*old(self)), next_kind(*final(self)) == next_kind(*old(self)), final(self).fuel == old(self).fuel,"
+FUEL_SAME_P = FUEL_SAME.replace("self", "p")
+FUEL_PEEK = "ntpos(*final(self)) == ntpos(*old(self)), next_kind(*final(self)) == next_kind(*old(self)), final(self).fuel == dec(old(self).fuel),"
+MU_SAME = "0 <= mu(*final(self)) == mu(*old(self)), at_eof(*final(self)) == at_eof(*old(self)), stay(*old(self), *final(self)), " + FUEL_SAME
+MU_SAME_P = "0 <= mu(*final(p)) == mu(*old(p)), at_eof(*final(p)) == at_eof(*old(p)), stay(*old(p), *final(p)), " + FUEL_SAME_P
 G_ENTRY = ("@entry", "", "let ghost p0 = *self;")
 G_SKIP = "lemma_skip_trivia_bounds(self.input.tokens@, self.input.cursor as int);"
 
 
 def peek_like(name, nth):
+    peek_res = "" if nth else "old(self).fuel > 0 ==> r == next_kind(*old(self)),"
     res = f"nth_kind({OLDC}, n as int)" if nth else f"nth_kind({OLDC}, 0)"
     cur = "final(self).input == old(self).input" if nth else f"final(self).input.cursor == skip_trivia({OLDC})"
     return Fn(file=P, name=name, container="Parser", as_method_of=PI, ret="r",
@@ -57,7 +61,9 @@ def peek_like(name, nth):
                 &&& final(self).stuck_reported == old(self).stuck_reported
             }}),
             {MU_PEEK}
-            at_eof(*old(self)) ==> r == TokenKind::Eof,""",
+            at_eof(*old(self)) ==> r == TokenKind::Eof,
+            {FUEL_PEEK}
+            {peek_res}""",
               ghost=[G_ENTRY,
                      ("@entry", "", f"proof {{ {G_SKIP} if at_eof(*self) {{ lemma_nth_eof(self.input.tokens@, self.input.cursor as int, {'n as int' if nth else '0'}); }} }}"),
                      ("self.diagnostics.push(", "line-before",
@@ -73,6 +79,7 @@ WF_PUSH = ("proof { lemma_pd_push0(old(self).events@, self.events@.last()); lemm
            "#[trigger] fp_ok(self.events@, i) by { if i < old(self).events@.len() { assert(fp_ok(old(self).events@, i)); } } }")
 
 REVEAL = ("@entry", "", "proof { reveal(Parser::wf); reveal(at_eof); reveal(mu); }")
+REVEAL2 = ("@entry", "", "proof { reveal(ntpos); reveal(next_kind); }")
 PCORE_FNS_RAW = [
     Fn(file=P, name="new", container="MarkerOpened", ret="r", contract="ensures r.index == pos,"),
     peek_like("peek", False),
@@ -86,7 +93,8 @@ PCORE_FNS_RAW = [
             final(self).diagnostics == old(self).diagnostics, final(self).stuck_reported == old(self).stuck_reported,
             {MU_SAME}""",
        ghost=[G_ENTRY, ("@entry", "", f"proof {{ {G_SKIP} }}"),
-              ("@entry", "", "proof { assert forall|q: Parser| q.input.tokens == p0.input.tokens && q.fuel == p0.fuel && (q.input.cursor == skip_trivia(p0.input.tokens@, p0.input.cursor as int) || q.input.cursor == p0.input.cursor) implies #[trigger] at_eof(q) == at_eof(p0) && nt_left(q) == nt_left(p0) by { lemma_mu_skip(p0, q); } }")]),
+              ("@entry", "", "proof { assert forall|q: Parser| q.input.tokens == p0.input.tokens && q.fuel == p0.fuel && (q.input.cursor == skip_trivia(p0.input.tokens@, p0.input.cursor as int) || q.input.cursor == p0.input.cursor) implies #[trigger] at_eof(q) == at_eof(p0) && nt_left(q) == nt_left(p0) by { lemma_mu_skip(p0, q); } }"),
+              ("@entry", "", "proof { lemma_nth_skip(self.input.tokens@, self.input.cursor as int, 0); }")]),
     Fn(file=P, name="at", container="Parser", as_method_of=PI, ret="r",
        contract=f"""requires old(self).wf(),
         ensures final(self).wf(), {FRAME}, final(self).events == old(self).events,
@@ -94,14 +102,18 @@ PCORE_FNS_RAW = [
             old(self).fuel > 0 ==> r == (kind == nth_kind({OLDC}, 0)) && final(self).fuel == old(self).fuel - 1,
             final(self).input.cursor == old(self).input.cursor || final(self).input.cursor == skip_trivia({OLDC}),
             {MU_PEEK}
-            at_eof(*old(self)) ==> r == (kind == TokenKind::Eof),"""),
+            at_eof(*old(self)) ==> r == (kind == TokenKind::Eof),
+            {FUEL_PEEK}
+            old(self).fuel > 0 ==> r == (kind == next_kind(*old(self))),"""),
     Fn(file=P, name="at_any", container="Parser", as_method_of=PI, ret="r",
        contract=f"""requires old(self).wf(),
         ensures final(self).wf(), {FRAME}, final(self).events == old(self).events,
             old(self).fuel == 0 ==> r == kinds@.contains(TokenKind::Eof),
             old(self).fuel > 0 ==> r == kinds@.contains(nth_kind({OLDC}, 0)),
             {MU_PEEK}
-            at_eof(*old(self)) ==> r == kinds@.contains(TokenKind::Eof),"""),
+            at_eof(*old(self)) ==> r == kinds@.contains(TokenKind::Eof),
+            {FUEL_PEEK}
+            old(self).fuel > 0 ==> r == kinds@.contains(next_kind(*old(self))),"""),
     Fn(file=P, name="open", container="Parser", as_method_of=PI, ret="r",
        obligation="open pushes a tombstone Open and returns a marker for it",
        contract=f"""requires old(self).wf(),
@@ -145,7 +157,8 @@ PCORE_FNS_RAW = [
             ({{ let c = skip_trivia({OLDC});
                final(self).input.cursor == if c < old(self).input.tokens.len() {{ c + 1 }} else {{ c }} }}),
             0 <= mu(*final(self)) <= mu(*old(self)), !at_eof(*old(self)) ==> mu(*final(self)) < mu(*old(self)),
-            at_eof(*old(self)) ==> at_eof(*final(self)), stay(*old(self), *final(self)),""",
+            at_eof(*old(self)) ==> at_eof(*final(self)), stay(*old(self), *final(self)),
+            ntpos(*final(self)) == ntpos(*old(self)) + if at_eof(*old(self)) {{ 0int }} else {{ 1int }},""",
        ghost=[G_ENTRY,
               ("@entry", "", f"proof {{ {G_SKIP} let c = skip_trivia(self.input.tokens@, self.input.cursor as int); if c < self.input.tokens.len() {{ lemma_nontrivia_step(self.input.tokens@, c); }} }}"),
               ("self.events.push(Event::Advance)", "line-after", WF_PUSH + "\nproof { lemma_mu_advance(p0, *self); }")]),
@@ -157,7 +170,11 @@ PCORE_FNS_RAW = [
             0 <= mu(*final(self)) <= mu(*old(self)),
             (r && kind != TokenKind::Eof) ==> mu(*final(self)) < mu(*old(self)),
             (old(self).fuel > 0 && !at_eof(*old(self))) ==> mu(*final(self)) < mu(*old(self)),
-            at_eof(*old(self)) ==> at_eof(*final(self)), stay(*old(self), *final(self)),"""),
+            at_eof(*old(self)) ==> at_eof(*final(self)), stay(*old(self), *final(self)),
+            !r ==> (ntpos(*final(self)) == ntpos(*old(self)) && next_kind(*final(self)) == next_kind(*old(self)) && final(self).fuel == dec(old(self).fuel)),
+            (r && kind != TokenKind::Eof) ==> (ntpos(*final(self)) == ntpos(*old(self)) + 1 && old(self).fuel > 0 && next_kind(*old(self)) == kind),
+            old(self).fuel > 0 ==> r == (kind == next_kind(*old(self))),
+            r ==> ntpos(*final(self)) == ntpos(*old(self)) + if at_eof(*old(self)) {{ 0int }} else {{ 1int }},"""),
     Fn(file=P, name="error", container="Parser", as_method_of=PI,
        rewrites=[("msg.to_string()", "rt_string(msg)")],
        contract=f"""requires old(self).wf(),
@@ -177,7 +194,8 @@ PCORE_FNS_RAW = [
             final(self).events@[old(self).events@.len() as int + 2] is Advance,
             final(self).events@[old(self).events@.len() as int + 3] is Close,
             0 <= mu(*final(self)) <= mu(*old(self)), !at_eof(*old(self)) ==> mu(*final(self)) < mu(*old(self)),
-            at_eof(*old(self)) ==> at_eof(*final(self)), stay(*old(self), *final(self)),""",
+            at_eof(*old(self)) ==> at_eof(*final(self)), stay(*old(self), *final(self)),
+            ntpos(*final(self)) == ntpos(*old(self)) + if at_eof(*old(self)) {{ 0int }} else {{ 1int }},""",
        ghost=[("let m = self.open()", "line-after", "let ghost e1 = self.events@;"),
               ("self.events.push(Event::Error(", "line-after", "proof { lemma_push_nonadv_wf(e1, self.events@.last()); assert(self.events@ =~= e1.push(self.events@.last())); }")]),
     Fn(file=P, name="should_consume_on_expect_failure", ret="r"),
@@ -190,7 +208,12 @@ PCORE_FNS_RAW = [
             forall|i: int| 0 <= i < old(self).events@.len() ==> final(self).events@[i] == old(self).events@[i],
             0 <= mu(*final(self)) <= mu(*old(self)),
             (old(self).fuel > 0 && !at_eof(*old(self))) ==> mu(*final(self)) < mu(*old(self)),
-            at_eof(*old(self)) ==> at_eof(*final(self)), stay(*old(self), *final(self)),""",
+            at_eof(*old(self)) ==> at_eof(*final(self)), stay(*old(self), *final(self)),
+            ntpos(*old(self)) <= ntpos(*final(self)) <= ntpos(*old(self)) + 1,
+            ntpos(*final(self)) == ntpos(*old(self)) ==> final(self).fuel as int + 2 >= old(self).fuel,
+            (ntpos(*final(self)) == ntpos(*old(self)) && !at_eof(*old(self))) ==> next_kind(*final(self)) == next_kind(*old(self)),
+            ntpos(*final(self)) > ntpos(*old(self)) ==> final(self).fuel == 256,
+            (old(self).fuel > 0 && kind != TokenKind::Eof && next_kind(*old(self)) == kind) ==> ntpos(*final(self)) == ntpos(*old(self)) + 1,""",
        ghost=[("self.events.push(Event::Error(", "line-after", "proof { lemma_push_nonadv_wf(old(self).events@, self.events@.last()); }")]),
 ]
 
@@ -198,6 +221,8 @@ PCORE_FNS = []
 for _f in PCORE_FNS_RAW:
     if "wf()" in _f.contract:
         _f.ghost = [REVEAL] + list(_f.ghost)
+    if "wf()" in _f.contract:
+        _f.ghost = [REVEAL2] + list(_f.ghost)
     PCORE_FNS.append(_f)
 
 LEMMAS = Raw(text="""
